@@ -595,7 +595,7 @@ Definition run_upload (op : string) (a : list str) : option str :=
     let n := arg_nat (g 1) in
     let listed := firstn n (skipn 2 a) in
     let f0 := lfs_of_args (skipn (2 + n) a) in
-    let '(f1, ok) := U20L.moves SRC DST (listed ++ [g 0]) f0 in
+    let '(f1, ok) := U20L.moves 40 SRC DST (listed ++ [g 0]) f0 in
     Some (unwords [if ok then lit "ok" else lit "err"; show_lfs f1])
   else if op =? "upload" then
     (* operation, control file name, failing primitive call (number, or "-"), number n of listed names, the names,
